@@ -167,8 +167,23 @@ func init() {
 	register(&PropCheck{
 		ID:   "C05",
 		Dirs: []string{"z80"},
-		Jobs: func(tier string, seed int64) []Job { return stepJobs(allEncodings(), "VStep") },
+		Jobs: func(tier string, seed int64) []Job {
+			jobs := stepJobs(allEncodings(), "VStep")
+			// no I/O device attached: the memory accesses of I/O instructions stay the same
+			nilio := encsOf("io")
+			for _, op := range []int{0xa2, 0xa3, 0xaa, 0xab, 0xb2, 0xb3, 0xba, 0xbb} {
+				nilio = append(nilio, Enc{2, op})
+			}
+			if tier == "thorough" {
+				nilio = allEncodings()
+			}
+			jobs = append(jobs, stepJobs(nilio, "VC05NilIO")...)
+			return jobs
+		},
 		Only: func(job Job, a string) bool {
+			if job.Harness == "VC05NilIO" {
+				return true
+			}
 			return inSet(a, "tracelen", "trace", "rmw-order", "portcount", "ports", "unsupported")
 		},
 		Bounds: stepBounds("all 7 tables x 256 (1786 leaf encodings); trace length <= 8 (longest observed is reported)"),
